@@ -5,6 +5,7 @@ import traceback
 from . import terms as T
 from .terms import SR, SB, snot, sand, EngineError, evaluate, EvalUndefined, subterms
 from . import solve
+from .poly import TooLarge
 
 
 class AssumeFalse(Exception):
@@ -82,6 +83,8 @@ def _eval_node(n, val, env):
                 return math.sin(x)
             if f == 'cos':
                 return math.cos(x)
+            if f == 'tan':
+                return math.tan(x)
             if f == 'arccos':
                 return math.acos(max(-1.0, min(1.0, x))) if -1 - 1e-9 <= x <= 1 + 1e-9 else float('nan')
             if f == 'arcsin':
@@ -117,6 +120,38 @@ def _eval_node(n, val, env):
     raise EvalUndefined(op)
 
 
+def truth_level(lit, se, tol=1e-9):
+    """2: true (equalities within tol), 1: true only within tol (boundary), 0: false.  May raise EvalUndefined."""
+    op = lit.op
+    if op in ('<', '<=', '=='):
+        a = se.get(lit.args[0])
+        b = se.get(lit.args[1])
+        if a != a or b != b:
+            return 0
+        sc = max(1.0, abs(a), abs(b))
+        if op == '==':
+            return 2 if abs(a - b) <= tol * sc else 0
+        if op == '<=':
+            return 2 if a <= b else (1 if a <= b + tol * sc else 0)
+        return 2 if a < b else (1 if a < b + tol * sc else 0)
+    if op == 'and':
+        return min(truth_level(x, se, tol) for x in lit.args)
+    if op == 'or':
+        return max(truth_level(x, se, tol) for x in lit.args)
+    if op == 'not':
+        inner = lit.args[0]
+        if inner.op == '==':
+            a = se.get(inner.args[0])
+            b = se.get(inner.args[1])
+            return 2 if a != b else 0
+        return 2 if truth_level(inner, se, 0.0) == 0 else 0
+    if op == 'T':
+        return 2
+    if op == 'F':
+        return 0
+    return 2 if se.get(lit) else 0
+
+
 class PathCtx:
     """exploration context of one path"""
 
@@ -131,6 +166,7 @@ class PathCtx:
         self.assumption_notes = explorer.assumption_notes
         self.alternatives = []
         self.live = list(explorer.samples)   # SampleEval objects consistent with the path so far
+        self.loose = set()                   # ids of live samples that satisfy some literal only within tolerance
         self.concretize = None
         self.fresh = {}
         self.symbolic_random = True
@@ -168,11 +204,52 @@ class PathCtx:
         keep = []
         for s in self.live:
             try:
-                if s.get(lit):
+                lv = truth_level(lit, s)
+                if lv:
+                    if lv == 1:
+                        self.loose.add(id(s))
                     keep.append(s)
-            except EvalUndefined:
+            except (EvalUndefined, OverflowError, ZeroDivisionError, ValueError):
                 pass
         self.live = keep
+
+    def entails(self, sb):
+        """do the hypotheses of the path so far entail sb?  (used by the normaliser for sign decisions)"""
+        sb = T.SB_lift(sb)
+        if sb.op == 'T':
+            return True
+        k = self.known.get(sb.id)
+        if k is not None:
+            return k
+        key = ('ent', sb.id, len(self.hyps), len(self.pc))
+        if key in self.fresh:
+            return self.fresh[key]
+        # quick refutation by a live sample
+        r = None
+        for s in self.live[:6]:
+            try:
+                if truth_level(sb, s, 0.0) == 0:
+                    r = False
+                    break
+            except (EvalUndefined, OverflowError, ZeroDivisionError, ValueError):
+                pass
+        if r is None:
+            saved = T.CTX[0]
+            T.CTX[0] = None
+            orc, self.ex.alg.oracle = self.ex.alg.oracle, None
+            try:
+                st, _, _ = solve.z3_check(list(self.all_hyps()), sb, timeout_s=2.0, alg=self.ex.alg)
+                if st != 'proved':
+                    st, _, _ = solve.z3_check(list(self.all_hyps()), sb, timeout_s=2.0, alg=None)
+            finally:
+                self.ex.alg.oracle = orc
+                T.CTX[0] = saved
+            r = (st == 'proved')
+        self.fresh[key] = r
+        return r
+
+    def strict_live(self):
+        return [s for s in self.live if id(s) not in self.loose]
 
     def all_hyps(self):
         return tuple(self.hyps) + tuple(self.pc)
@@ -205,6 +282,15 @@ class PathCtx:
         k = self.known.get(sb.id)
         if k is not None:
             return k
+        if sb.op in ('<', '<=', '==') and self.ex.alg is not None:
+            # decided by the canonical (ring normal) form?  then it is not a branch point at all
+            try:
+                c = self.ex.alg.canon_cmp(sb.op, sb.args[0], sb.args[1])
+            except TooLarge:
+                c = None
+            if c is True or c is False:
+                self.known[sb.id] = c
+                return c
         if sb.op == 'and':
             # evaluate conjuncts one by one (same truth value, fewer composite literals)
             for a in sb.args:
@@ -237,11 +323,11 @@ class PathCtx:
         n_t = n_f = 0
         for s in self.live:
             try:
-                if s.get(sb):
+                if truth_level(sb, s, 0.0):
                     n_t += 1
                 else:
                     n_f += 1
-            except EvalUndefined:
+            except (EvalUndefined, OverflowError, ZeroDivisionError, ValueError):
                 pass
         if n_t:
             t_ok = True
@@ -269,16 +355,19 @@ class PathCtx:
 
     def _feasible(self, lit):
         ex = self.ex
-        st, env = solve.z3_sat(list(self.all_hyps()) + [lit], timeout_s=ex.feas_timeout)
+        st, env = solve.z3_sat(list(self.all_hyps()) + [lit], timeout_s=ex.feas_timeout, alg=ex.alg)
         if st == 'unsat':
             return False
         if st == 'sat' and env is not None:
             # keep the model as an extra sample if it is genuine under float evaluation
             try:
                 se = SampleEval({k: float(v) for k, v in env.items()})
-                if all(se.get(h) for h in self.all_hyps()) and se.get(lit):
+                lv = min([truth_level(h, se) for h in self.all_hyps()] + [truth_level(lit, se)])
+                if lv:
                     ex.samples.append(se)
                     self.live.append(se)
+                    if lv == 1:
+                        self.loose.add(id(se))
             except (EvalUndefined, OverflowError, ZeroDivisionError):
                 pass
         return True
@@ -296,7 +385,8 @@ def _caller_site():
 
 
 class Explorer:
-    def __init__(self, samples=(), max_paths=400, max_depth=60, feas_timeout=3.0):
+    def __init__(self, samples=(), max_paths=400, max_depth=60, feas_timeout=3.0, alg=None):
+        self.alg = alg
         self.samples = [SampleEval(e) for e in samples]
         self.max_paths = max_paths
         self.max_depth = max_depth
@@ -304,8 +394,9 @@ class Explorer:
         self.assumption_notes = set()
         self.paths = []
 
-    def run(self, body):
-        """body(ctx) executes one path (build inputs, call, ensures).  Returns list of PathCtx."""
+    def run(self, body, on_path=None):
+        """body(ctx) executes one path (build inputs, call, ensures); on_path(ctx) is called while the
+        path's scoped algebra rules are still active.  Returns list of PathCtx."""
         pending = [[]]
         done = []
         while pending:
@@ -314,13 +405,22 @@ class Explorer:
             dec = pending.pop()
             ctx = PathCtx(self, dec)
             T.CTX[0] = ctx
+            if self.alg is not None:
+                self.alg.push()
+                self.alg.oracle = ctx.entails
             try:
                 try:
-                    body(ctx)
-                except AssumeFalse:
-                    ctx.cut = True
+                    try:
+                        body(ctx)
+                    except AssumeFalse:
+                        ctx.cut = True
+                finally:
+                    T.CTX[0] = None
+                if on_path is not None:
+                    on_path(len(done), ctx)
             finally:
-                T.CTX[0] = None
+                if self.alg is not None:
+                    self.alg.pop()
             pending.extend(ctx.alternatives)
             done.append(ctx)
         self.paths = done
